@@ -478,25 +478,37 @@ func constNud(p *parser, t *token) *token {
 		t.Append(plural(symAtPos(t.Pos, ",")))
 		t.Append(plural(symAtPos(t.Pos, ",")))
 		p.Advance("(")
-		var prev *token
+		// iota is the index of the spec (line); a spec without values repeats the previous spec's
+		// expressions and types
+		var prev, prevNames []*token
+		spec := 0
 		for p.Token.Symbol != ")" {
 			if decl := getDecl(p, kind); decl != nil {
-				for _, tt := range plural(decl.Tokens[0]).Tokens {
+				names := plural(decl.Tokens[0]).Tokens
+				for _, tt := range names {
 					t.Tokens[0].Append(tt)
 				}
 				if len(decl.Tokens) > 1 {
+					prev, prevNames = nil, names
 					for _, tt := range plural(decl.Tokens[1]).Tokens {
-						prev = tt.Copy()
-						tt.Replace("iota", "(int)", fmt.Sprint(len(t.Tokens[1].Tokens)))
+						prev = append(prev, tt.Copy())
+						tt.Replace("iota", "(int)", fmt.Sprint(spec))
 						t.Tokens[1].Append(tt)
 					}
 				} else {
-					for range plural(decl.Tokens[0]).Tokens {
-						tt := prev.Copy()
-						tt.Replace("iota", "(int)", fmt.Sprint(len(t.Tokens[1].Tokens)))
+					for k, name := range names {
+						if k >= len(prev) {
+							panicf("missing value for constant %v", name.Text)
+						}
+						tt := prev[k].Copy()
+						tt.Replace("iota", "(int)", fmt.Sprint(spec))
 						t.Tokens[1].Append(tt)
+						if len(name.Tokens) == 0 && k < len(prevNames) && len(prevNames[k].Tokens) > 0 {
+							name.Append(prevNames[k].Tokens[0].Copy())
+						}
 					}
 				}
+				spec++
 			}
 		}
 		p.Advance(")")
